@@ -129,6 +129,47 @@ def layout_noise(rng, data, density=0.15):
     return nl.join(out)
 
 
+KEYWORDS = [b"signal", b"constant", b"variable", b"begin", b"end", b"process", b"entity", b"architecture", b"port", b"generic", b"if", b"then", b"else", b"case", b"when", b"is", b"of", b"in", b"out", b"downto", b"to"]
+
+
+PLANT_PHASE = {0: 4, 1: 6, 2: 2, 3: 1}  # kind of edit -> phase of the rules that object to it
+
+
+def plant_violations(rng, data, density=0.15, phases=None):
+    """Meaning-preserving edits that create style violations in several phases at once: extra or
+    missing indentation (phase 4), keywords in the other case (phase 6), doubled blanks (phase 2),
+    trailing blanks (phase 1).  Lines with string literals or comments are left alone."""
+    import re
+
+    nl = b"\r\n" if b"\r\n" in data else b"\n"
+    out = []
+    for ln in data.split(nl):
+        if ln.strip() and b'"' not in ln and b"--" not in ln and b"'" not in ln and rng.random() < density:
+            kinds = [k for k in range(4) if phases is None or PLANT_PHASE[k] in phases]
+            if not kinds:
+                out.append(ln)
+                continue
+            k = rng.choice(kinds)
+            if k == 0:
+                ln = rng.choice([b" ", b"   ", b""]) + ln.lstrip(b" ") if rng.random() < 0.5 else b"  " + ln
+            elif k == 1:
+                for kw in rng.sample(KEYWORDS, 4):
+                    pat = re.compile(rb"\b" + kw + rb"\b", re.I)
+                    m = pat.search(ln)
+                    if m:
+                        w = m.group(0)
+                        ln = ln[: m.start()] + (w.upper() if w.islower() else w.lower()) + ln[m.end() :]
+                        break
+            elif k == 2:
+                i = ln.find(b" ", len(ln) - len(ln.lstrip(b" ")) + 1)
+                if i > 0:
+                    ln = ln[:i] + b"  " + ln[i:]
+            else:
+                ln = ln + b"  "
+        out.append(ln)
+    return nl.join(out)
+
+
 def sb_entry(path, data, mode="644"):
     return {"path": path, "mode": mode, "b64": base64.b64encode(data).decode()}
 
